@@ -655,6 +655,11 @@ def _doc_cases():
          [('image', 'pixel', 'circle', '1,2,3', {'include': 0}), ('image', 'pixel', 'circle', '1,2,3', I1),
           ('image', 'pixel', 'circle', '1,2,3', I1), ('image', 'pixel', 'circle', '1,2,3', I1),
           ('image', 'pixel', 'circle', '1,2,3', {'include': 0})]),
+        ('the sign of a region wins over include= of the (standard) global line',
+         'global color=green include=1\nimage\n-circle(1,2,3)\ncircle(4,5,6)\ncircle(7,8,9) # include=0',
+         [('image', 'pixel', 'circle', '1,2,3', {'color': 'green', 'include': 0}),
+          ('image', 'pixel', 'circle', '4,5,6', {'color': 'green', 'include': 1}),
+          ('image', 'pixel', 'circle', '7,8,9', {'color': 'green', 'include': 0})]),
         ('global then own metadata', 'global color=red width=2\nimage\ncircle(1,2,3) # color=blue\ncircle(4,5,6)\nglobal width=3\ncircle(7,8,9)',
          [('image', 'pixel', 'circle', '1,2,3', {'color': 'blue', 'width': 2, 'include': 1}),
           ('image', 'pixel', 'circle', '4,5,6', {'color': 'red', 'width': 2, 'include': 1}),
